@@ -1,5 +1,6 @@
 import QuillModel.Backend.CtxDrain
 import QuillModel.Backend.ThreadProofs
+import QuillModel.Backend.CtxQuiet
 /-!
 # C20 — exited threads' queues are drained, then reclaimed
 
@@ -95,12 +96,14 @@ theorem C20_live_contexts_registered (s0 : BSt) (h0 : CtxFresh s0) (ops : List O
 /-- **After a drain, what is retained belongs to live threads — or still owes a report.** Take any reachable state
     and any poll (with any operations injected at its hook sites) that reads nothing, takes the idle branch and
     finds every queue and transit buffer empty, at a moment when fewer than `2 ^ invalidBits` contexts are
-    registered. After that poll every registered context belongs to a live thread, or its failure counter has
+    registered, with nothing injected into the logger clean-up that ends the poll (hook site 9: a thread starting
+    or exiting there would change the picture after the contexts were reclaimed).
+    After that poll every registered context belongs to a live thread, or its failure counter has
     not been reported yet (`Unreported`: the repaired clean-up keeps such a context until the next
     `_check_failure_counter`, finding F24) — every other context of an exited thread was reclaimed
     (it was empty: its statements had been delivered before, C03). -/
 theorem C20_idle_poll_reclaims (s0 : BSt) (h0 : CtxFresh s0) (ops : List Op)
-    (table : List (Nat × Nat × List FOp)) :
+    (table : List (Nat × Nat × List FOp)) (h9 : ∀ e ∈ table, e.1 ≠ 9) :
     let s := runOps s0 ops
     let sp : BSt := { s with siteCnt := [] }
     let s' := (applyOp s (.poll table)).1
@@ -113,14 +116,15 @@ theorem C20_idle_poll_reclaims (s0 : BSt) (h0 : CtxFresh s0) (ops : List Op)
   have hsp : CInv sp := hs
   have hinj := runInj_ok CInv_closed table
   have hid := CInv_idleState hinj sp hsp
-  have hs'eq : s' = cleanupLoggers (cleanupContexts (allEmpty (idleState (runInj table) sp)).1) := by
+  have hs'eq : s' = cleanupLoggers (runInj table) (cleanupContexts (allEmpty (idleState (runInj table) sp)).1) := by
     show (applyOp s (.poll table)).1 = _
     have hap : applyOp s (.poll table) = if s.backendGone then (s, "noop") else (poll (runInj table) sp, "ev") := rfl
     rw [hap, hg]
     exact poll_idle_eq (runInj table) sp hp he
   have hval := drained_all_valid _ hid hnw he
-  obtain ⟨f1, f2, _⟩ := cleanupLoggers_frame (cleanupContexts (allEmpty (idleState (runInj table) sp)).1)
-  obtain ⟨g1, g2⟩ := cleanupLoggers_fail (cleanupContexts (allEmpty (idleState (runInj table) sp)).1)
+  have hq := runInj_quiet9 table h9
+  obtain ⟨f1, f2, _⟩ := cleanupLoggers_frame (runInj table) hq (cleanupContexts (allEmpty (idleState (runInj table) sp)).1)
+  obtain ⟨g1, g2⟩ := cleanupLoggers_fail (runInj table) hq (cleanupContexts (allEmpty (idleState (runInj table) sp)).1)
   intro i hi
   rw [hs'eq] at hi ⊢
   rw [f1] at hi
@@ -139,7 +143,7 @@ theorem C20_idle_poll_reclaims (s0 : BSt) (h0 : CtxFresh s0) (ops : List Op)
     registered context belongs to a live thread, the registry is a permutation of the contexts of the live threads
     that have logged, and their numbers agree. -/
 theorem C20_idle_poll_retains_live (s0 : BSt) (h0 : CtxFresh s0) (ops : List Op)
-    (table : List (Nat × Nat × List FOp)) :
+    (table : List (Nat × Nat × List FOp)) (h9 : ∀ e ∈ table, e.1 ≠ 9) :
     let s := runOps s0 ops
     let sp : BSt := { s with siteCnt := [] }
     let s' := (applyOp s (.poll table)).1
@@ -150,7 +154,7 @@ theorem C20_idle_poll_retains_live (s0 : BSt) (h0 : CtxFresh s0) (ops : List Op)
     (∀ i ∈ s'.registry, (s'.th i).valid = true) ∧ s'.registry.Perm (liveContexts s') ∧
     s'.registry.length = (s'.actors.filter (fun x => x.alive && x.ctx.isSome)).length := by
   intro s sp s' hg hp he hnw hfail
-  have hmain := C20_idle_poll_reclaims s0 h0 ops table hg hp he hnw
+  have hmain := C20_idle_poll_reclaims s0 h0 ops table h9 hg hp he hnw
   have hv' : ∀ i ∈ s'.registry, (s'.th i).valid = true := by
     intro i hi
     rcases hmain i hi with hv | hu
@@ -169,6 +173,43 @@ theorem C20_idle_poll_retains_live (s0 : BSt) (h0 : CtxFresh s0) (ops : List Op)
   have := hperm.length_eq
   simp only [liveContexts, List.length_map] at this
   exact this
+
+/-- **Once the backend has drained, only live threads' contexts are left.** An idle poll into which nothing is
+    injected (no frontend step interleaves with it: the backend is alone, as after the last statement of a quiet
+    program) that finds every queue and transit buffer empty reports every failure counter before it reclaims, so
+    no context is kept back as "unreported": after it every registered context belongs to a live thread, the
+    registry is a permutation of the contexts of the live threads that have logged, and the numbers agree. A context
+    kept by an earlier, busier poll (`C20_idle_poll_reclaims`) goes at the latest here. -/
+theorem C20_quiet_idle_poll_retains_live (s0 : BSt) (h0 : CtxFresh s0) (ops : List Op) :
+    let s := runOps s0 ops
+    let sp : BSt := { s with siteCnt := [] }
+    let s' := (applyOp s (.poll [])).1
+    s.backendGone = false → (populate (runInj []) sp).2 = 0 →
+    (allEmpty (idleState (runInj []) sp)).2 = true →
+    (idleState (runInj []) sp).registry.length < 2 ^ (idleState (runInj []) sp).cfg.invalidBits →
+    (∀ i ∈ s'.registry, (s'.th i).valid = true) ∧ s'.registry.Perm (liveContexts s') ∧
+    s'.registry.length = (s'.actors.filter (fun x => x.alive && x.ctx.isSome)).length := by
+  intro s sp s' hg hp he hnw
+  apply C20_idle_poll_retains_live s0 h0 ops [] (fun _ h => by cases h) hg hp he hnw
+  -- every registered context has a reported (zero) failure counter
+  intro i hi _
+  have hs : CInv s := CInv_runOps s0 h0.inv ops
+  have hsp : CInv sp := hs
+  have hinjC := runInj_nil_ok CInv_closed.toClosedB
+  have hs'eq : s' = cleanupLoggers (runInj []) (cleanupContexts (allEmpty (idleState (runInj []) sp)).1) := by
+    show (applyOp s (.poll [])).1 = _
+    have hap : applyOp s (.poll []) = if s.backendGone then (s, "noop") else (poll (runInj []) sp, "ev") := rfl
+    rw [hap, hg]
+    exact poll_idle_eq (runInj []) sp hp he
+  -- the state the emptiness check starts from
+  have hXC : CInv (idleState (runInj []) sp) := CInv_idleState hinjC sp hsp
+  obtain ⟨hXfail, hXN⟩ := idleState_nil_facts sp
+  have hXcr : (idleState (runInj []) sp).cache = (idleState (runInj []) sp).registry := hXC.fresh hXN
+  -- follow `i` back
+  have hi' : i ∈ s'.registry := hi
+  show (s'.th i).fail = 0
+  rw [hs'eq] at hi' ⊢
+  exact fail_zero_after_cleanups (runInj []) runInj_nil_quiet9 _ hXfail hXcr i hi'
 
 /-- **Reclaimed only after delivery**: in every reachable state a context that is no longer registered (it was
     reclaimed) has an empty transit buffer and an empty queue, and every statement ever committed to its queue has
